@@ -214,6 +214,22 @@ def run(ctx):
             assert nb > 2, "generator: big case is not multi-block"
         check_one(ctx, "large-plain-" + ref_mode, gg, recs, order, bool(i % 2), False, True, d)
 
+    # ---- 3b. one contig, every alignment on a reference node: ONE run of same-contig records that spans every BGZF block of the output, so the
+    # last-record offset of the contig is taken several block boundaries after the first one (added after seeded change C10-7: offsets
+    # advanced by byte counts inside a run of one contig are wrong from the first block boundary on)
+    n_run = 1 if ctx.quick else 3
+    ctx.bound("long-run: %d case(s) of 420-520 padded records of ONE contig, all touching a reference node (one same-contig run across >= 2 BGZF block boundaries), BGZF and plain output" % n_run)
+    for i in range(n_run):
+        n = rng.randint(420, 520)
+        gg, recs = sortlib.make_case2(rng, n, n_chrom=1, ref_mode="all", tag_mode="mixed", pad=rng.randint(250, 320))
+        d = ctx.dir("c10r")
+        order = list(range(n))
+        rng.shuffle(order)
+        if check_one(ctx, "long-run-bgzf", gg, recs, order, bool(i % 2), True, bool(i % 2), d):
+            nb = len(sortlib.bgzf_blocks(os.path.join(d, "out.gaf.gz")))
+            assert nb > 3, "generator: long-run case does not span three data blocks"
+        check_one(ctx, "long-run-plain", gg, recs, order, bool(i % 2), False, False, d)
+
     # ---- 4. the real command line ------------------------------------------------------------------------------------------------
     n_cli = 3 if ctx.quick else 16
     ctx.bound("cli: %d real `python -m gaftools sort --outgaf` runs (exit code, default and --outind index path, --bgzip)" % n_cli)
